@@ -1299,3 +1299,112 @@ Lemma glibc_version_roundtrip a b :
 Proof.
   unfold glibc_version_of. rewrite split_two. cbn [ints_of]. rewrite !py_int_dec. reflexivity.
 Qed.
+(* ------------------------------------------------------------------ wheel file names (PEP 427) *)
+
+Definition no_char (ch : ascii) (s : string) : Prop := all_chars (fun c => negb (Ascii.eqb c ch)) s = true.
+(* a file-name field: no "-" and no "/" in it *)
+Definition field_ok (s : string) : Prop := no_char dash s /\ no_char slash s.
+
+Lemma all_chars_app p a b : all_chars p (a ++ b) = all_chars p a && all_chars p b.
+Proof. induction a as [|c a IH]; cbn; auto. rewrite IH. apply andb_assoc. Qed.
+
+Lemma split_nosep sep s : no_char sep s -> split_char sep s = [s].
+Proof.
+  intros H. unfold split_char. rewrite <- (append_empty s) at 1.
+  rewrite split_char_acc_nosep by exact H. cbn [split_char_acc].
+  change (rev_str (rev_str_acc s "")) with (rev_str (rev_str s)). rewrite rev_str_invol. reflexivity.
+Qed.
+
+Lemma split_cons sep d rest : no_char sep d -> split_char sep (d ++ String sep rest) = d :: split_char sep rest.
+Proof.
+  intros H. unfold split_char. rewrite split_char_acc_nosep by exact H. cbn [split_char_acc].
+  rewrite Ascii.eqb_refl. change (rev_str (rev_str_acc d "")) with (rev_str (rev_str d)).
+  rewrite rev_str_invol. reflexivity.
+Qed.
+
+Lemma rev_str_acc_app a b acc : rev_str_acc (a ++ b) acc = rev_str_acc b (rev_str_acc a acc).
+Proof. revert acc; induction a as [|c a IH]; intros acc; cbn; auto. Qed.
+
+Lemma drop_last_whl s : drop_last 4 (s ++ ".whl") = s.
+Proof.
+  unfold drop_last, rev_str. rewrite rev_str_acc_app. cbn [rev_str_acc drop].
+  change (rev_str_acc (rev_str_acc s "") "") with (rev_str (rev_str s)). apply rev_str_invol.
+Qed.
+
+Lemma basename_noslash s : no_char slash s -> basename s = s.
+Proof. intros H. unfold basename. rewrite split_nosep by exact H. reflexivity. Qed.
+
+Definition wheel_stem (name ver build pyf abif platf : string) : string :=
+  name ++ "-" ++ ver ++ (match build with EmptyString => EmptyString | _ => "-" ++ build end)
+       ++ "-" ++ pyf ++ "-" ++ abif ++ "-" ++ platf.
+
+Lemma wheel_filename_stem name ver build pyf abif platf :
+  wheel_filename name ver build pyf abif platf = wheel_stem name ver build pyf abif platf ++ ".whl".
+Proof.
+  unfold wheel_filename, wheel_stem. destruct build as [|c b];
+    repeat (rewrite append_assoc_s || cbn [append]); reflexivity.
+Qed.
+
+(* the file name of a wheel is read back field by field, with and without a build tag *)
+Lemma wheel_fields_roundtrip name ver build pyf abif platf :
+  field_ok name -> field_ok ver -> field_ok build -> field_ok pyf -> field_ok abif -> field_ok platf ->
+  wheel_fields_of (wheel_filename name ver build pyf abif platf)
+  = Some (mkWF name ver build pyf abif platf (wheel_filename name ver build pyf abif platf)).
+Proof.
+  intros [Dn Sn] [Dv Sv] [Db Sb] [Dp Sp] [Da Sa] [Dl Sl].
+  unfold wheel_fields_of.
+  assert (no_char slash (wheel_filename name ver build pyf abif platf)) as NS.
+  { unfold no_char, wheel_filename in *. destruct build as [|c b];
+      repeat (rewrite all_chars_app || cbn [append all_chars]);
+      rewrite ?Sn, ?Sv, ?Sp, ?Sa, ?Sl; cbn [append all_chars] in Sb; try rewrite Sb; reflexivity. }
+  rewrite (basename_noslash _ NS). rewrite wheel_filename_stem at 1. rewrite drop_last_whl.
+  unfold wheel_stem. destruct build as [|c b].
+  - cbn [append]. change ("-" ++ ?x) with (String dash x).
+    rewrite (split_cons dash name) by exact Dn. rewrite (split_cons dash ver) by exact Dv.
+    rewrite (split_cons dash pyf) by exact Dp. rewrite (split_cons dash abif) by exact Da.
+    rewrite (split_nosep dash platf) by exact Dl. reflexivity.
+  - cbn [append].
+    rewrite (split_cons dash name) by exact Dn. rewrite (split_cons dash ver) by exact Dv.
+    match goal with |- context [String c (b ++ String ?d ?x)] =>
+      change (String c (b ++ String d x)) with (String c b ++ String dash x) end.
+    rewrite (split_cons dash (String c b)) by exact Db.
+    rewrite (split_cons dash pyf) by exact Dp. rewrite (split_cons dash abif) by exact Da.
+    rewrite (split_nosep dash platf) by exact Dl. reflexivity.
+Qed.
+
+(* supported => eligible, stated on the PEP 427 file name: an optional build tag does not matter *)
+Lemma supported_file_eligible r t id v name ver build pyf abif platf :
+  field_ok name -> field_ok ver -> field_ok build -> field_ok pyf -> field_ok abif -> field_ok platf ->
+  wf_raw r = true -> In t (sys_tags r) ->
+  (legacy_arch (r_arch r) = true \/ is_legacy_name (snd t) = false) ->
+  wheel_has_tag pyf abif platf t ->
+  exists k, wheel_cand_of_filename id v (wheel_filename name ver build pyf abif platf) = Some k
+            /\ k_extra k = build /\ eligible (cfg_of r) k = true.
+Proof.
+  intros. unfold wheel_cand_of_filename. rewrite wheel_fields_roundtrip by assumption.
+  eexists. split; [reflexivity|]. split; [reflexivity|]. cbn [wf_build wf_py wf_abi wf_plat wf_file].
+  eapply supported_eligible; eauto.
+Qed.
+
+Lemma foreign_file_rejected r id v name ver build pyf abif platf :
+  field_ok name -> field_ok ver -> field_ok build -> field_ok pyf -> field_ok abif -> field_ok platf ->
+  wf_raw r = true -> foreign_wheel r pyf abif platf ->
+  exists k, wheel_cand_of_filename id v (wheel_filename name ver build pyf abif platf) = Some k
+            /\ eligible (cfg_of r) k = false.
+Proof.
+  intros. unfold wheel_cand_of_filename. rewrite wheel_fields_roundtrip by assumption.
+  eexists. split; [reflexivity|]. cbn [wf_build wf_py wf_abi wf_plat wf_file].
+  apply foreign_rejected; auto.
+Qed.
+
+Example supported_file_eligible_nontrivial :
+  field_ok "demo_pkg" /\ field_ok "1.0" /\ field_ok "2b" /\ field_ok "cp310" /\ field_ok "abi3"
+  /\ field_ok "manylinux2014_x86_64"
+  /\ wheel_filename "demo_pkg" "1.0" "2b" "cp310" "abi3" "manylinux2014_x86_64"
+     = "demo_pkg-1.0-2b-cp310-abi3-manylinux2014_x86_64.whl"
+  /\ In ("cp310", "abi3", "manylinux2014_x86_64") (sys_tags r312)
+  /\ (forall id, option_map (eligible (cfg_of r312))
+        (wheel_cand_of_filename id v10 "demo_pkg-1.0-1-py3-none-any.whl") = Some true).
+Proof.
+  repeat split; try reflexivity. apply mem_tag_In; vm_compute; reflexivity.
+Qed.
